@@ -176,7 +176,7 @@ pub fn run_c05(p: &mut Prng, t: Tier, i: usize, sink: &mut Sink) {
         }
         queues.push(ops);
     }
-    for op in interleave(p, queues) {
+    for op in interleave_par(p, queues) {
         w.exec(op);
     }
     // round trip: what the library decrypted is what was encrypted
@@ -312,7 +312,7 @@ pub fn run_c06(p: &mut Prng, _t: Tier, i: usize, sink: &mut Sink) {
     let ops_a = base_ops(p, "a", &msg, order, comp, encryptor);
     let bmsg = msg_of_len(p, mlen);
     let ops_b = base_ops(p, "b", &bmsg, order, comp, "lib");
-    for op in interleave(p, vec![ops_a, ops_b]) {
+    for op in interleave_par(p, vec![ops_a, ops_b]) {
         w.exec(op);
     }
     let dec = || dec_op("a", order, comp);
